@@ -468,7 +468,7 @@ fn classify(e: &arroy::Error) -> (&'static str, String) {
     }
 }
 
-fn err_res(e: &arroy::Error) -> String {
+pub fn err_res(e: &arroy::Error) -> String {
     let (kind, rest) = classify(e);
     match kind {
         // the kinds whose text is redundant
